@@ -11,6 +11,7 @@ THEOREMS = {
             "reshape_rowwise", "squeeze_counterexample", "fitRec_append"],
     "C03": ["radius_exact", "euclid_via_squares", "knn_override_valid", "nanInv_init", "nanInv_addArm", "nanInv_removeArm",
             "empty_nhood_exps", "nhood_from_scratch", "fit_discards"],
+    "C04": ["noninterference_private", "shared_default_counterexample", "world_step_deterministic", "private_copy_frame"],
     "C05": ["partition_exact_cover", "effectiveJobs_bounds", "splitBySizes_flatten", "chunked_map", "predict_any_partition",
             "fit_tasks_commute", "parallelFitIn_closed", "Py.Dict.foldl_modify"],
     "C06": ["incremental_eq_batch", "spec_chunked", "rowsOf_append", "fitRec_append", "first_partial_is_fit", "neighbors_history"],
@@ -40,6 +41,7 @@ IMPORTS = {
     "C01": ["MabModel.Props.C01"],
     "C02": ["MabModel.Props.C02"],
     "C03": ["MabModel.Props.C03"],
+    "C04": ["MabModel.Props.C04"],
     "C05": ["MabModel.Props.C05"],
     "C06": ["MabModel.Props.C06"],
     "C07": ["MabModel.Props.C07"],
